@@ -68,7 +68,9 @@ type knownFinding struct {
 // NewReport creates a report and loads known_findings.txt from verifDir.
 func NewReport(prop, tier string, seed int64, prog *Program, verifDir string) *Report {
 	r := &Report{Prop: prop, Tier: tier, Seed: seed, Prog: prog, start: time.Now(), VerifDir: verifDir, Extra: map[string]interface{}{}}
-	r.loadKnown(filepath.Join(verifDir, "known_findings.txt"))
+	if verifDir != "" {
+		r.loadKnown(filepath.Join(verifDir, "known_findings.txt"))
+	}
 	return r
 }
 
